@@ -132,7 +132,10 @@ def _edit(kind):
             E.prove(f"C06.StaticGenerativeFunction.edit_{kind}.bwd_is_static_request_of_per_site_requests", E.And(
                 isinstance(bwd, Obj) and bwd.cls.name == "StaticRequest",
                 isinstance(fld(E, bwd, "addressed"), SymMap) and E.And(
-                    fld(E, bwd, "addressed").has == sites.has, fld(E, bwd, "addressed").val == vals)))
+                    fld(E, bwd, "addressed").has == sites.has, fld(E, bwd, "addressed").val == vals)),
+                # (C38: a StaticRequest's result - backward request included - is made of the per-site results, keyed by the
+                # addresses of the sites that were visited)
+                also=["C38"] if kind == "static_request" else ())
         E.refutable(f"static.gfi.edit_{kind}", E.eq(w, 0.0))
     return t
 
